@@ -169,6 +169,11 @@ def gen_project(rng, wildcard=0.0, missing_import=0.0):
             class_annos.append({"name": "Table", "args": [("name", '"t_x"')]})
         if rng.random() < 0.1:
             class_annos.append({"name": "SuppressWarnings", "args": '"unchecked"'})
+        if rng.random() < 0.1:
+            # argument values that contain `=` themselves: a string literal, a nested annotation with named arguments
+            class_annos.append(rng.choice([{"name": "Where", "args": [("clause", '"deleted=0"')]},
+                                           {"name": "Table", "args": [("name", '"t"'), ("indexes", '@Index(name = "i", columnList = "c")')]},
+                                           {"name": "ConditionalOnExpression", "args": [("value", '"a==b"')]}]))
         if kind == "interface" and rng.random() < 0.25:
             # a client interface with a type-level mapping (Feign style): no controller, contributes no entry - and its base path
             # must not reach the next file
@@ -263,6 +268,19 @@ def gen_stmt(rng, env, use, others, cls, depth):
         if k == "switch":
             se = inner(env)          # the whole switch body is one scope
             return ("switch", ("name", rng.choice(names(env) or ["x"])), [[gen_stmt(rng, se, use, others, cls, depth + 1)] for _ in range(rng.choice([1, 2]))])
+        if k == "try" and rng.random() < 0.5:
+            # try-with-resources whose resource has the name of a FIELD: after the statement the name is the field again
+            t = use(pick_type(rng, others, allow_prim=False))
+            fields_ = [f for f in env[FIELDS] if f not in env[SCOPED]]
+            if t and fields_:
+                vn = rng.choice(fields_)
+                ie = inner(env)
+                ie[vn] = None          # (calls on the resource itself inside the block carry no expectation)
+                tr = ("tryres", t, vn, ("new", t, []), [gen_stmt(rng, ie, use, others, cls, depth + 1) for _ in range(rng.choice([1, 2]))])
+                if env.get(vn) and env[vn] not in PRIMS and env[vn] != t and depth < 2:
+                    # ... followed by a call on the field of that name
+                    return ("if", ("name", "true"), 1, [tr, ("expr", ("call", ("name", vn), rng.choice(METHODS), [], {"recvVar": vn, "recvType": env[vn]}))], None)
+                return tr
         if k == "try":
             return ("try", [gen_stmt(rng, inner(env), use, others, cls, depth + 1)], "Exception", [gen_stmt(rng, inner(env), use, others, cls, depth + 1)])
         return ("filler", 1)
@@ -375,6 +393,11 @@ def multi_case(rng):
     rng.shuffle(runs)
     c["op"] = "fullmulti"
     c["runs"] = runs
+    if len(paths) > 1 and rng.random() < 0.25:
+        # the identifier set lags behind the tree: it does not know the type of one file (held fixed over all runs)
+        k = rng.randrange(len(c["identKeys"]))
+        c["identSkip"] = [c["identKeys"][k]]
+        c["identKeys"] = [x for i, x in enumerate(c["identKeys"]) if i != k]
     return c
 
 
